@@ -2169,6 +2169,9 @@ func runC03(c *Ctx) error {
 		c.Note("oracle failures with key %s: %d programs", key, n)
 	}
 	c03cgOpcodeFamily(c) // directed programs: concat, builtin, bts/btc (c03cg.go)
+	if err := c03Packages(c); err != nil {
+		return err
+	}
 	return c03Testsuite(c)
 }
 
